@@ -167,6 +167,7 @@ static void do_run(char **w, int n)
 
 	struct archive *a = archive_read_new();
 	archive_read_support_filter_all(a);
+	archive_read_add_passphrase(a, "verif-pass");	/* what `make` encrypts with; harmless otherwise */
 	{	/* only=<format>: a single format reader, so that the read-ahead buffer is sized by that
 		 * reader's own requests and not by the other bidders' */
 		const char *only = kv(w, n, "only");
@@ -337,6 +338,7 @@ static void do_make(char **w, int n)
 	{	/* opt=<option string>: writer/filter options ("lz4:!stream-checksum,lz4:block-size=4", "7zip:compression=store") */
 		const char *opt = kv(w, n, "opt");
 		if (opt[0] && strcmp(opt, "-") != 0 && archive_write_set_options(a, opt) < ARCHIVE_WARN) { printf("bad-opt"); archive_write_free(a); return; }
+		if (strstr(opt, "encryption")) archive_write_set_passphrase(a, "verif-pass");
 	}
 	r = archive_write_open(a, &sk, NULL, sink_write, NULL);
 	static const long sizes[] = {0, 1, 10, 511, 512, 513, 1000, 4095, 5000, 10240, 70001, 200001};
@@ -359,7 +361,7 @@ static void do_make(char **w, int n)
 		} else snprintf(name, sizeof name, isar ? "f%d.o" : "dir%d/file_%d.dat", isar ? i : i % 3, i);
 		long sz = sizes[xr(&rng) % (sizeof sizes / sizeof sizes[0])];
 		if (israw) sz = 200000 + (long)(xr(&rng) % 150000);    /* multi-block streams */
-		else if (strcmp(kv(w, n, "big"), "1") == 0 && i % 2 == 0) sz = 66000 + (long)(xr(&rng) % 200000);
+		else if (strcmp(kv(w, n, "big"), "1") == 0 && i % 2 == 0) sz = 66000 + (long)(xr(&rng) % 400000);   /* beyond one 256 KiB decompression window now and then */
 		archive_entry_set_pathname(e, name);
 		archive_entry_set_mtime(e, 1000000000 + i * 3600, 0);
 		archive_entry_set_uid(e, 1000 + i % 3); archive_entry_set_gid(e, 100);
